@@ -40,6 +40,7 @@ PARTIAL = [
 
 TRANSLATOR = "harness/translators/indelmap.py"
 MODEL_TARGETS = ["theories/Model/IndelMapRun.vo", "theories/Model/FeatureMapRun.vo"]
+EQ_FILES = ["IndelMapGenEq.v", "IndelMapGenMergeEq.v", "IndelMapGenLoopEq.v", "IndelMapGenCoordsEq.v"]
 
 
 def run_translator():
@@ -72,7 +73,7 @@ def pre_build():
 
 def explain_tie_break(problem):
     """a build failure inside IndelMapGenEq.v / IndelMapGen.v is a broken translator tie: name the lemma / generated function"""
-    m = re.search(r"(Proofs/IndelMapGenEq\.v|Proofs/IndelMapGenMain\.v|gen/IndelMapGen\.v):(\d+)", problem)
+    m = re.search(r"(Proofs/IndelMapGen\w*\.v|gen/IndelMapGen\.v):(\d+)", problem)
     if not m:
         return problem
     path = core.COQ / ("theories/" + m.group(1) if m.group(1).startswith("Proofs") else m.group(1))
@@ -92,8 +93,12 @@ def explain_tie_break(problem):
 
 def tie_report(terr, records, pr):
     """coverage['translator_tie']: what was translated and whether equality with the model was proved in this run"""
-    src = core.strip_comments((core.COQ / "theories" / "Proofs" / "IndelMapGenEq.v").read_text())
-    lemmas = re.findall(r"Lemma\s+(\w+_eq)\b", src)
+    lemmas = []
+    for f in EQ_FILES:
+        path = core.COQ / "theories" / "Proofs" / f
+        if path.exists():
+            src = core.strip_comments(path.read_text())
+            lemmas += re.findall(r"(?:Lemma|Theorem)\s+(\w+_eq(?:_all)?)\b", src)
     gen_thms = [t for t in pr.get("theorems", {}) if t.startswith("gen_")]
     proved = terr is None and not pr.get("problems") and bool(gen_thms) and all(pr["theorems"][t]["ok"] for t in gen_thms)
     if terr is not None:
@@ -104,17 +109,23 @@ def tie_report(terr, records, pr):
         status = "ok"
     return dict(
         status=status, translator=TRANSLATOR, generated="coq/gen/IndelMapGen.v (module G)",
-        equality_file="coq/theories/Proofs/IndelMapGenEq.v", equality_with_model_proved=proved,
+        equality_file="coq/theories/Proofs/IndelMapGen{Eq,MergeEq,LoopEq,CoordsEq}.v", equality_with_model_proved=proved,
         equality_lemmas=lemmas if proved else [], transported_theorems=gen_thms if proved else [],
         functions=records,
-        not_translated=["nongap", "spans", "merge_maps", "joined_segments", "minus_gaps", "shared_gaps", "from_aligned_segments",
-                        "from_spans", "gap_coords_to_map", "Sequence.parse_out_gaps", "FeatureMap / Span (all)"],
+        not_translated=["joined_segments", "from_aligned_segments", "from_spans", "gap_coords_to_map", "make_seq_feature_map",
+                        "Sequence.parse_out_gaps", "FeatureMap / Span (all): __getitem__, remap_with, covered, inverse, shadow, nucleic_reversed"],
         reading="Python int / numpy integer = Z; numpy arrays and Python lists = list Z (which of the two is tracked, `+` differs); "
                 "a[i] = the total read pyget (negative wrap, 0 out of range) and a[i:j] with non-literal bounds = zslice (bounds >= 0), "
                 "as in Model/IndelMap.v; searchsorted = first index with element >= v (> v); falling off the end = Err E_None; "
                 "(idx,) = numpy.where(m)[0] raises ValueError unless exactly one match; in-place updates of local arrays are rebinding "
                 "(views and their bases are removed from scope after an update; updating a field of self aborts); "
-                "self.num_gaps = len(gap_pos) (checked in __post_init__); tolerated and dropped: flags.writeable, _serialisable.pop",
+                "self.num_gaps = len(gap_pos) (checked in __post_init__); tolerated and dropped: flags.writeable, _serialisable.pop; "
+                "for-loops (also nested, with continue / break) become structural fixpoints over the array whose state are the "
+                "variables assigned in the body, generators return the list of yielded spans (TerminalPadding = LostSpan); "
+                "numpy.intersect1d(assume_unique, return_indices) = index pairs in the order of the first (sorted) argument, "
+                "r[idx] += v / r[idx] = v with index arrays = sequential updates (distinct indices); _update_lengths returns the "
+                "array it updates in place; singledispatch registrations are chosen by the kind of the argument (map / array); "
+                "numpy.empty((n, 2)) = n rows assigned before being read",
     )
 
 
